@@ -40,10 +40,16 @@ for sid in sorted(os.listdir(ROOT)):
     if not os.path.exists(p):
         continue
     m = json.load(open(p)); v = m.get("verification", {})
-    ck = v.get("checks", {})
+    ah = v.get("at_head") or {}
+    ck = ah.get("checks") or v.get("checks", {})
     caught = "; ".join(f"{k}: " + ("caught" + (" (concrete input)" if c["violations"] > c["without_input"] else " (no-failing-input-found)") if c["exit"] else "MISSED")
                        for k, c in ck.items())
-    if v.get("obsolete"):
+    if ah.get("checks"):
+        caught += f" (re-run at {ah.get('repo_head')})"
+    if ah.get("obsolete"):
+        caught = f"OBSOLETE at {ah.get('repo_head')}: " + ah["obsolete"][:200] + " — when recorded: " + "; ".join(
+            f"{k}: " + ("caught" if c["exit"] else "MISSED") for k, c in v.get("checks", {}).items())
+    elif v.get("obsolete"):
         caught = "OBSOLETE: " + v["obsolete"][:160]
     rows.append(f"| {sid} | {m.get('property')} | {m.get('title','')[:90]} | {m.get('needs_to_manifest','')[:110]} | {'yes' if (v.get('confirmed') or v.get('confirmed_at_creation')) else 'no'} | {caught} |")
 open(os.path.join(ROOT, "README.md"), "w").write(
